@@ -252,7 +252,12 @@ func checkC19(tier string) *Report {
 			fmt.Println("HARNESS-ERROR child fixture:", err)
 			os.Exit(2)
 		}
-		bz, _ := json.Marshal(map[string]any{"w0": worlds[0].StateKey(worlds[0].Ctx), "digests": ds[0]})
+		loopTr, lerr := loopRun(nil, full)
+		if lerr != nil {
+			fmt.Println("HARNESS-ERROR child real-block history:", lerr)
+			os.Exit(2)
+		}
+		bz, _ := json.Marshal(map[string]any{"w0": worlds[0].StateKey(worlds[0].Ctx), "digests": ds[0], "loop": loopTr})
 		if err := os.WriteFile(os.Getenv("VERIF_C19_CHILD"), bz, 0o644); err != nil {
 			fmt.Println("HARNESS-ERROR child write:", err)
 			os.Exit(2)
@@ -265,7 +270,7 @@ func checkC19(tier string) *Report {
 	if full {
 		inProc, children = 4, 4
 	}
-	rep.Rule = fmt.Sprintf("every history of the list (all op sequences up to depth %d over the 20-op C12 alphabet, depth 2 over the C08 alphabet, every C14 mutated memo and packet, the C01 probe packets on two states) is replayed on %d independent instances in this process and %d in separate OS processes; per-transition digests of ack bytes + ordered events + full-store hash and the final orbiter/bank exports are compared. Non-trivial = histories whose last operation is refused (they carry error text)", map[bool]int{false: 2, true: 3}[full], inProc, children)
+	rep.Rule = fmt.Sprintf("every history of the list (all op sequences up to depth %d over the 20-op C12 alphabet, depth 2 over the C08 alphabet, every C14 mutated memo and packet, the C01 probe packets on two states) is replayed on %d independent instances in this process and %d in separate OS processes; per-transition digests of ack bytes + ordered events + full-store hash and the final orbiter/bank exports are compared. In addition the REAL block history of loop.go (signed transactions through baseapp, packets through IBC core over the localhost client; app hash, tx codes, gas used, acknowledgement digests per block) is replayed on 2 fresh instances here and once per child process and compared line by line. Non-trivial = histories whose last operation is refused (they carry error text)", map[bool]int{false: 2, true: 3}[full], inProc, children)
 	rep.Assumptions = []string{
 		"the map-iteration 'schedule' is chosen by the Go runtime and cannot be driven by a harness: over that dimension this is repetition (R replays, some in other processes), not enumeration; histories and states are enumerated exhaustively for the stated lists",
 		"event attributes on which two runs of the orbiter-free reference stack disagree in the same process are third-party noise and masked; acknowledgement bytes, store contents and everything emitted by orbiter are never masked",
@@ -279,6 +284,7 @@ func checkC19(tier string) *Report {
 	type childRes struct {
 		W0      string   `json:"w0"`
 		Digests []string `json:"digests"`
+		Loop    []string `json:"loop"`
 		err     error
 	}
 	cres := make([]childRes, children)
@@ -314,6 +320,22 @@ func checkC19(tier string) *Report {
 		rep.HarnessError("fixture: %v", err)
 		return rep
 	}
+	// the real block history of loop.go (signed transactions, FinalizeBlock+Commit, IBC core over the localhost client):
+	// app hash, transaction codes, gas used and acknowledgement bytes of every block must be identical on every replay
+	loopTrs := make([][]string, 2)
+	var lwg sync.WaitGroup
+	var loopErr error
+	for li := range loopTrs {
+		lwg.Add(1)
+		go func(li int) {
+			defer lwg.Done()
+			tr, err := loopRun(nil, full)
+			if err != nil {
+				loopErr = err
+			}
+			loopTrs[li] = tr
+		}(li)
+	}
 	flaky, lightRuns, err := c19Amplify(hs, full)
 	if err != nil {
 		rep.HarnessError("fixture: %v", err)
@@ -342,6 +364,36 @@ func checkC19(tier string) *Report {
 		}
 		all = append(all, cres[ci].Digests)
 	}
+	lwg.Wait()
+	if loopErr != nil {
+		rep.HarnessError("real block history: %v", loopErr)
+		return rep
+	}
+	for ci := range cres {
+		loopTrs = append(loopTrs, cres[ci].Loop)
+	}
+	for r := 1; r < len(loopTrs); r++ {
+		a, b := loopTrs[0], loopTrs[r]
+		if len(a) != len(b) {
+			rep.Violate(Violation{Kind: "real-block-history-differs", Sig: "length", Replay: mustJSON("loop"), What: fmt.Sprintf("replay %d of the real block history has %d transcript lines, replay 0 has %d", r, len(b), len(a))})
+			continue
+		}
+		for k := range a {
+			if a[k] != b[k] {
+				label := a[k]
+				if i := strings.Index(label, " code="); i > 0 {
+					label = label[:i]
+				}
+				rep.Violate(Violation{Kind: "real-block-history-differs", Sig: "first difference at: " + trunc(label, 200), Replay: mustJSON("loop"),
+					What: fmt.Sprintf("the same block history (signed transactions through baseapp, packets through IBC core) gives different app hashes / tx results / gas / acknowledgements on independent replays; first difference at line %d:\n  replay 0: %s\n  replay %d: %s", k, trunc(a[k], 400), r, trunc(b[k], 400))})
+				break
+			}
+		}
+	}
+	rep.Extra["real_block_history_lines"] = len(loopTrs[0])
+	rep.Extra["real_block_history_replays"] = len(loopTrs)
+	rep.Count("evaluations", int64(len(loopTrs[0])))
+	rep.Guard(len(loopTrs[0]) > 500, "real block history too short: %d lines", len(loopTrs[0]))
 	var transitions int64
 	for i, h := range hs {
 		transitions += int64(len(h.Ops))
